@@ -261,6 +261,10 @@ FamOrdX ==
               asc \in BOOLEAN, w \in {1, 2}}
     \cup {Q1(<<MN, WithO(<<Item(Var("n"), "n"), Item(np, "a")>>, NoX, <<Ord(va, TRUE)>>, -1, 2),
                 RetO(<<Item(eqa1, "b")>>, <<Ord(eqa1, asc)>>, -1, -1)>>) : asc \in BOOLEAN}
+    \* list literals that mix a per-row element with a constant (a parameter slot of the list-element position)
+    \cup {Q1(<<MN, Ret(<<Item(ListX(<<np, Lit(VInt(1))>>), "l")>>)>>),
+          Q1(<<MN, Ret(<<Item(Var("n"), ""), Item(ListX(<<Lit(VInt(2)), np, Lit(VStr("a"))>>), "l")>>)>>),
+          Q1(<<Match(<<Path0(n0)>>, InX(Lit(VInt(1)), ListX(<<np, Lit(VInt(2))>>))), RetNP>>)}
 vx == Var("x")
 FamWith ==
     {Q1(<<MN, With(<<Item(Var("n"), "n")>>, w), RetNP>>) : w \in {Cmp("=", np, Lit(VInt(1))), IsNullX(np), NoX}}
